@@ -121,6 +121,9 @@ type env struct {
 	gms    govtypes.MsgServer
 	gk     govkeeper.Keeper
 	tokReg func(c sdk.Context, den string) bool
+	tokInf func(c sdk.Context, den string) (reg bool, owner string, rate sdk.Dec, cap, sup sdk.Int)
+	allTok func(c sdk.Context) []string
+	send   func(c sdk.Context, from, to sdk.AccAddress, amt sdk.Coins) error
 }
 
 // one history on a private cache of the base state
@@ -293,6 +296,93 @@ func (h *hist) burntx(u int, den string, amt int64) bool {
 	})
 	h.observe(jop{Op: "burntx", U: u, Den: den, Amt: amt, Reg: reg}, fmt.Sprintf("OBurnTx U%d %s %s %s", u, hx.Str(den), hx.Z(amt), hx.B(reg)), ok, errs)
 	return ok
+}
+
+// every denomination that exists on the chain at this moment (registry entries, LP denoms of this history,
+// the native denom, a foreign token, one that does not exist)
+func (h *hist) anyDenom(r *hx.Rng) string {
+	set := append([]string{"ukex", "foreign", "nosuchdenom"}, h.dens...)
+	set = append(set, h.e.allTok(h.c)...)
+	if len(h.dens) > 0 && r.Chance(50) { // LP denominations of launched dApps most of the time
+		return h.dens[r.Intn(len(h.dens))]
+	}
+	return set[r.Intn(len(set))]
+}
+
+// MsgMintIssueTx by anybody (owners and outsiders) for any denomination
+func (h *hist) mintissue(u int, den string, amt int64) bool {
+	e := h.e
+	reg, owner, rate, cp, sp := e.tokInf(h.c, den)
+	ok, errs := h.tx(func(c sdk.Context) error {
+		_, err := e.ms.MintIssueTx(sdk.WrapSDKContext(c), &l2types.MsgMintIssueTx{Sender: e.ustr[u], Denom: den, Amount: sdk.NewInt(amt)})
+		return err
+	})
+	if reg && !h.hasDen(den) && den != "ukex" && sdk.ValidateDenom(den) == nil {
+		h.dens = append(h.dens, den)
+	}
+	ow := hx.Str(owner)
+	if i := h.uidx(owner); i >= 0 {
+		ow = fmt.Sprintf("U%d", i)
+	}
+	h.observe(jop{Op: "mintissue", U: u, Den: den, Amt: amt, Reg: reg, Fee: rate.String()},
+		fmt.Sprintf("OMintIssue U%d %s %s %s %s %s %s %s", u, hx.Str(den), hx.Z(amt), hx.B(reg), ow, hx.ZBig(rate.BigInt()), hx.ZInt(cp), hx.ZInt(sp)), ok, errs)
+	return ok
+}
+
+func (h *hist) hasDen(den string) bool {
+	for _, x := range h.dens {
+		if x == den {
+			return true
+		}
+	}
+	return false
+}
+
+// bank transfer between two accounts of any denomination
+func (h *hist) banksend(u, to int, den string, amt int64) bool {
+	e := h.e
+	ok, errs := h.tx(func(c sdk.Context) error {
+		if amt <= 0 || sdk.ValidateDenom(den) != nil {
+			return fmt.Errorf("invalid coins")
+		}
+		return e.send(c, e.users[u], e.users[to], sdk.Coins{coin(den, amt)})
+	})
+	h.observe(jop{Op: "banksend", U: u, Name2: fmt.Sprint(to), Den: den, Amt: amt}, fmt.Sprintf("OBankSend U%d U%d %s %s", u, to, hx.Str(den), hx.Z(amt)), ok, errs)
+	return ok
+}
+
+// an OUTSIDER (never bonded, never swapped) tries to get at the pool: mints himself LP tokens (or any other
+// denomination), or is sent some, and redeems / converts them the way the message handlers would
+func (h *hist) outsider(r *hx.Rng, names []string) {
+	who := []int{4, 3, r.Intn(5)}[r.Intn(3)]
+	for i := 0; i < 3+r.Intn(3); i++ {
+		n := names[r.Intn(len(names))]
+		d := h.e.k.GetDapp(h.c, n)
+		den := h.anyDenom(r)
+		if d.Name != "" && r.Chance(60) {
+			den = d.LpToken()
+		}
+		amt := []int64{1, 1000, 1000000, 0, -5, 1 << 40}[r.Intn(6)]
+		switch r.Intn(5) {
+		case 0, 1, 2:
+			h.mintissue(who, den, amt)
+		case 3:
+			h.banksend(r.Intn(3), who, den, r.Range(1, 100000))
+		default:
+			h.burntx(who, den, r.Range(1, 1000))
+		}
+		if d.Name != "" && !d.PoolFee.IsNil() && d.Status != l2types.Bootstrap && sdk.ValidateDenom(d.LpToken()) == nil {
+			if b := h.lpBal(who, d.LpToken()); b > 0 && who < 5 {
+				fee := d.PoolFee.String()
+				h.lpmsg(1, who, n, "", d.LpToken(), b, "1")
+				if r.Bool() {
+					h.kredeem(who, n, d.LpToken(), r.Range(1, b), fee)
+				} else {
+					h.kconvert(who, n, names[r.Intn(len(names))], d.LpToken(), r.Range(1, b))
+				}
+			}
+		}
+	}
 }
 
 // MsgMintCreateFtTx
@@ -494,6 +584,9 @@ func (h *hist) bond(u int, name string, amt int64, foreign bool) bool {
 	den := "ukex"
 	if foreign {
 		den = "foreign"
+		if len(h.dens) > 0 && (amt%2 == 0) { // any other denomination that exists, e.g. an LP token
+			den = h.dens[int(amt/2)%len(h.dens)]
+		}
 	}
 	ok, errs := h.tx(func(c sdk.Context) error {
 		_, err := e.ms.BondDappProposal(sdk.WrapSDKContext(c), &l2types.MsgBondDappProposal{Sender: e.ustr[u], DappName: name, Bond: coin(den, amt)})
@@ -781,6 +874,31 @@ func main() {
 	e.gms = govkeeper.NewMsgServerImpl(app.CustomGovKeeper)
 	e.gk = app.CustomGovKeeper
 	e.tokReg = func(c sdk.Context, den string) bool { return app.TokensKeeper.GetTokenInfo(c, den) != nil }
+	e.tokInf = func(c sdk.Context, den string) (bool, string, sdk.Dec, sdk.Int, sdk.Int) {
+		ti := app.TokensKeeper.GetTokenInfo(c, den)
+		if ti == nil {
+			return false, "", sdk.ZeroDec(), sdk.ZeroInt(), sdk.ZeroInt()
+		}
+		rate, cp, sp := ti.FeeRate, ti.SupplyCap, ti.Supply
+		if rate.IsNil() {
+			rate = sdk.ZeroDec()
+		}
+		if cp.IsNil() {
+			cp = sdk.ZeroInt()
+		}
+		if sp.IsNil() {
+			sp = sdk.ZeroInt()
+		}
+		return true, ti.Owner, rate, cp, sp
+	}
+	e.allTok = func(c sdk.Context) []string {
+		var out []string
+		for _, ti := range app.TokensKeeper.GetAllTokenInfos(c) {
+			out = append(out, ti.Denom)
+		}
+		return out
+	}
+	e.send = func(c sdk.Context, from, to sdk.AccAddress, amt sdk.Coins) error { return app.BankKeeper.SendCoins(c, from, to, amt) }
 	e.setCfg = func(c sdk.Context, cf cfg) {
 		p := app.CustomGovKeeper.GetNetworkProperties(c)
 		p.MinDappBond, p.MaxDappBond, p.DappBondDuration = cf.Min, cf.Max, cf.Dur
@@ -907,6 +1025,9 @@ func main() {
 			h.statuses(r, names)
 		case "other":
 			h.others(r, names)
+		}
+		if lp && r.Chance(60) {
+			h.outsider(r, names)
 		}
 		add(h, kind, cf0)
 	}
